@@ -71,12 +71,32 @@ def Head.isPure : Head → Bool
   | .callInplace | .updateitem _ | .assert_ _ => false
   | _ => true
 
+/-- In-place / effectful heads (`CallInplace`, `UpdateItem` of the `*_at` operations).  The evaluator treats them as OPAQUE
+applications: their meaning is `Sem.app` of the evaluated operands (any partial function), they are evaluated exactly once like
+every node of a store, and no pattern ever inspects them. -/
+def Head.isEffect : Head → Bool
+  | .callInplace | .updateitem _ => true
+  | _ => false
+
+/-- Heads the evaluator gives a meaning to: everything but `Assert` (whose output pytree and types come from its operand). -/
+def Head.evaluable (h : Head) : Bool := h.isPure || h.isEffect
+
 /-- The traced type is true of the value. -/
 def tyOK (Sm : Sem V) : Ty → V → Bool
   | .value, _ => true
   | .tensor s, v => Sm.shapeOf v == some s
   | .convertible (some s) _, v => Sm.shapeOf v == some s
   | .convertible none _, _ => true
+
+/-- `CallInplace(xs, f, …)` returns `xs` itself after the call (its output tracer has `xs._tracer_type`): the result must have
+the shape of the value of `xs`.  Every other application: no condition. -/
+def inplaceOK (Sm : Sem V) (ea : EApp V) (v : V) : Bool :=
+  match ea.head with
+  | .callInplace =>
+    match ea.pre with
+    | [.val x] :: _ => Sm.shapeOf v == Sm.shapeOf x
+    | _ => false
+  | _ => true
 
 /-- The value of node number `env.length`, given the values of the nodes before it. -/
 def evalNode (Sm : Sem V) (bind : List (Nat × V)) (env : List V) (n : Node) : Except String V :=
@@ -86,11 +106,11 @@ def evalNode (Sm : Sem V) (bind : List (Nat × V)) (env : List V) (n : Node) : E
     | some v => if tyOK Sm n.ty v then pure v else throw "input: the traced type is not the type of the value"
     | none => throw "tracer without origin that is not a graph input"
   | .app a =>
-    if a.out == [.ref 0] && a.head.isPure then do
+    if a.out == [.ref 0] && a.head.evaluable then do
       let ea ← evalApp env a
       let v ← Sm.app ea
-      if tyOK Sm n.ty v then pure v else throw "the traced type is not the type of the value"
-    else throw "outside the pure node language"
+      if tyOK Sm n.ty v && inplaceOK Sm ea v then pure v else throw "the traced type is not the type of the value"
+    else throw "outside the node language of the evaluator"
   | .proj _ _ => throw "outside the pure node language"
 
 def evalNodes (Sm : Sem V) (bind : List (Nat × V)) : List Node → List V → Except String (List V)
@@ -123,14 +143,15 @@ def Prog.wfTop (p : Prog) : Bool :=
     | none => false
   | _ => false
 
-/-- The store is in the pure node language (every application has one output and a pure head, no nested graph values):
+/-- The store is in the node language of the evaluator (every application has one output and is not an `Assert`, no nested graph
+values; in-place nodes are opaque applications):
 the structural part of "the evaluator does not fail", reported by the driver for every real graph. -/
 def Prog.pureLang (p : Prog) : Bool :=
   let noG (v : List Tok) : Bool := v.all (fun t => match t with | .gref _ => false | _ => true)
   p.store.nodes.all (fun n =>
     match n.origin with
     | .none => true
-    | .app a => a.out == [.ref 0] && a.head.isPure && (a.pre ++ a.args ++ a.kwargs.map (·.2) ++ a.deps).all noG
+    | .app a => a.out == [.ref 0] && a.head.evaluable && (a.pre ++ a.args ++ a.kwargs.map (·.2) ++ a.deps).all noG
     | .proj _ _ => false) &&
   (match p.top with
    | [.gref k] => match p.store.graphs[k]? with | some g => noG g.output | none => false
